@@ -8,6 +8,9 @@ KNOWN = os.path.join(ROOT, "known-findings.txt")
 REPLAY_OUT = os.path.join(ROOT, "replay-out")
 
 
+_replay_cache = {}
+
+
 def load_known():
     known, fixed = [], []
     if os.path.exists(KNOWN):
@@ -139,7 +142,15 @@ def check_property(prop, groups, tier, replays, seed=0, only_group=None, keep=Fa
         fn = replays.get(g.replay) if g.replay else None
         if fn:
             try:
-                confirmed, detail = fn(rec, os.path.join(wd_root, g.name))
+                # one native sweep per replay family and run (the sweep is scenario-family based, see vlib/replays.py);
+                # templates that use the counterexample's own values (c16, c15) are re-run per obligation
+                ck = g.replay if g.replay not in ("c16", "c15") else None
+                if ck and ck in _replay_cache:
+                    confirmed, detail = _replay_cache[ck]
+                else:
+                    confirmed, detail = fn(rec, os.path.join(wd_root, g.name))
+                    if ck:
+                        _replay_cache[ck] = (confirmed, detail)
                 rec["native_replay"] = detail
             except Exception as e:
                 rec["native_replay"] = {"error": traceback.format_exc()[-1200:]}
